@@ -104,6 +104,7 @@ def main():
         ("zero-d dense-then-indexed", lambda x, c: (x + c) + 3.0 * x[None][0] + x[...]),
         ("zero-d indexed-then-dense", lambda x, c: 3.0 * x[None][0] + x[()] + (x * c + x)),
         ("zero-d fan-out", lambda x, c: (x + x) + x[None, None][0, 0] * c + (x + 0.0)),
+        ("zero-d complex dense-dense-indexed", lambda x, c: ((x * (1 + 2j) + c) + (x * 1j)) + 3.0 * (x * (2 - 1j))[()] + (x * (1 + 1j))[None][0]),
     ]
     for rep in range(cfg["n_progs"]):
         name, f = progs[rep % len(progs)]
@@ -148,6 +149,45 @@ def main():
             out["oracle_bad"].append({"oracle": "program:" + name, "x": x.tolist(),
                                       "problems": ["raised (a write into read-only memory raises ValueError): %r" % (ex,)],
                                       "site": {"oracle": "purity"}})
+    # ---- (B0) functions obtained once and used later: a JVP / VJP function keeps belonging to the call that made it, whatever
+    #      the same operator object is applied to afterwards; results handed back earlier are the caller's to overwrite ----
+    try:
+        from autograd import make_jvp as _mjo, make_vjp as _mvo, grad as _gro
+        fside = lambda z, a_, b_=0.0: anp.sum(a_ * z * z * z) + b_ * z[0]     # noqa: E731
+        xa_, va_ = onp.array([0.5, -1.0, 2.0]), onp.array([1.0, 0.5, -2.0])
+        for oname, mk, use in (("make_jvp", lambda: _mjo(fside), lambda r: onp.asarray(r(va_)[1])), ("make_vjp", lambda: _mvo(fside), lambda r: onp.asarray(r[0](2.0)))):
+            out["oracle_n"] += 1
+            out["oracle_keys"].append("operator-object-reuse:" + oname)
+            dist("program:operator-object-reuse")
+            op = mk()
+            params = [2.0, 5.0, -1.0]
+            fresh = [use(mk()(xa_, a_)) for a_ in params]
+            held = [op(xa_, a_) for a_ in params]
+            op(xa_ * 2.0, 7.0, b_=3.0)
+            later = [use(h_) for h_ in held]
+            again = [use(h_) for h_ in held[::-1]][::-1]
+            if not all(onp.all(l_ == f_) and onp.all(g_ == f_) for l_, g_, f_ in zip(later, again, fresh)):
+                out["oracle_bad"].append({"oracle": "operator-object-reuse:" + oname, "problems": ["a function returned by %s(f)(x, a) gives %s after the operator was applied elsewhere; a fresh one gives %s" % (
+                    oname, [l_.tolist() for l_ in later], [f_.tolist() for f_ in fresh])], "site": {"oracle": "purity"}})
+        for nm, fz, x0_, g0_ in (("independent of the input", lambda z: onp.ones(2) * 3.0, onp.array([1.0, 2.0, 3.0]), onp.ones(2)),
+                                 ("independent, container argument", lambda z: 5.0, {"a": onp.array([1.0, 2.0]), "b": 2.0}, 1.0),
+                                 ("dependent", lambda z: z * 2.0, onp.array([1.0, 2.0, 3.0]), onp.ones(3))):
+            out["oracle_n"] += 1
+            out["oracle_keys"].append("returned-result-is-the-callers:" + nm)
+            dist("program:returned-results")
+            vj_, _ = _mvo(fz)(x0_)
+            first = vj_(g0_)
+            snap1 = json.dumps(first, default=lambda a: onp.asarray(a).tolist())
+            leaves_ = list(first.values()) if isinstance(first, dict) else [first]
+            for lf in leaves_:
+                if isinstance(lf, onp.ndarray) and lf.flags.writeable:
+                    lf += 7.0                                  # the caller accumulates into what it was given
+            second = vj_(g0_)
+            if json.dumps(second, default=lambda a: onp.asarray(a).tolist()) != snap1:
+                out["oracle_bad"].append({"oracle": "returned-result-is-the-callers:" + nm, "problems": ["after the caller wrote into an earlier result the same VJP function returns %s instead of %s" % (
+                    json.dumps(second, default=lambda a: onp.asarray(a).tolist()), snap1)], "site": {"oracle": "purity"}})
+    except Exception as ex:
+        out["oracle_bad"].append({"oracle": "operator-object-reuse", "problems": ["raised %r" % (ex,)], "site": {"oracle": "purity"}})
     # ---- (B') the optimisers built on grad: the caller's starting point and the parameters handed to earlier callbacks
     #      are not written later ----
     try:
